@@ -379,3 +379,141 @@ def is_tensor_dict(v):
     return v.get("class_name") == "__tensor__"
   except Exception:  # pylint: disable=broad-except
     return False
+
+
+# =========================================================================== strengthening round 2
+# (C09, seeds C09-7 / C09-8).  Additions only.
+
+def form_of2(v):
+  """like form_of, but a numpy array with >= 1 dimension is "array" (the model's Form.array: what
+  `isinstance(self.alpha, np.ndarray)` branches on and serialize_keras_object tags `__numpy__`)"""
+  f = form_of(v)
+  if f == "ndarray" and v.ndim > 0:
+    return "array"
+  return f
+
+
+def tagged_dict(v):
+  """the tag of a value as serialize_keras_object leaves a tf.Tensor / numpy array of >= 1
+  dimension: "__tensor__" / "__numpy__" ; None for anything else"""
+  try:
+    t = v.get("class_name")
+    return t if t in ("__tensor__", "__numpy__") else None
+  except Exception:  # pylint: disable=broad-except
+    return None
+
+
+CHANNEL_FACTORS = (1.0, 2.0, 0.5, 0.25, 1.0, 4.0)     # last axis of every probe tensor has size 6
+
+
+def array_forms(v):
+  """a numeric option value held as array-like: size-1 array, per-channel arrays (rank 1 and
+  rank 2, float32 and float64), list, tuple.  The per-channel variants of a float scale the value
+  by powers of two (distinct channels), of an int repeat it."""
+  if isinstance(v, bool) or not isinstance(v, (int, float)):
+    return []
+  if isinstance(v, int):
+    chan, dt = [v] * 6, np.int64
+  else:
+    chan, dt = [v * c for c in CHANNEL_FACTORS], np.float32
+  return [("ndarray[1]", np.array([v], dtype=dt)),
+          ("ndarray[6]", np.array(chan, dtype=dt)),
+          ("ndarray[1,6]", np.array([chan], dtype=np.float64 if dt is np.float32 else np.int32)),
+          ("list[1]", [v]),
+          ("tuple[6]", tuple(chan))]
+
+
+def public_state(q):
+  """every attribute of a live quantizer except what a call rewrites and tf.Module bookkeeping,
+  encoded (model-free: no table of names involved)"""
+  return {k: henc(v) for k, v in vars(q).items() if k not in VOLATILE and not k.startswith("_self_")}
+
+
+def live_params(cls):
+  """[(name, default, annotation)] of the LIVE constructor signature"""
+  import inspect
+  out = []
+  for p in list(inspect.signature(cls.__init__).parameters.values())[1:]:
+    if p.kind in (p.VAR_POSITIONAL, p.VAR_KEYWORD):
+      continue
+    out.append((p.name, None if p.default is p.empty else p.default,
+                None if p.annotation is p.empty else p.annotation))
+  return out
+
+
+BUILD_ONLY = ("var_name", "use_variables")
+
+_NAME_HINTS = (
+    (("exponent", "shift"), [-1, 1, -2, 0, -7]),
+    (("axis",), [0, 1, -1]),
+    (("bits", "integer", "unroll"), [4, 1, 2]),
+    (("elements",), [2, 3]),
+    (("alpha",), ["auto", "auto_po2", 2.0]),
+    (("scale", "threshold", "bound", "value", "slope", "factor", "temperature", "clip", "max", "min"),
+     [0.5, 2.0, 1, 0.0]),
+    (("use_", "is_", "enable", "symmetric", "keep_", "stochastic"), [True, False, 1]),
+    (("rounding", "mode"), ["floor", "rnd"]),
+)
+
+
+def guess_values(pname, default, annotation=None, cap=7):
+  """typed candidate values of a constructor parameter the lattice does not know: values of the
+  same-named option of any class of the lattice, neighbours of the default (by its type), values by
+  annotation, values suggested by the name; falsy-but-legal values included; the default excluded"""
+  vals = []
+  for lat in LATTICE.values():
+    vals += [v for v in lat["options"].get(pname, []) if not isinstance(v, (np.ndarray, list))]
+  if isinstance(default, bool):
+    vals += [not default]
+  elif isinstance(default, int):
+    vals += [default + 1, default - 1, 0, 2 * default]
+  elif isinstance(default, float):
+    vals += [default / 2, default * 2, 0.0, default + 1.0]
+  elif isinstance(default, str):
+    vals += [s for s in ("auto", "auto_po2", "floor", "rnd", "") if s != default]
+  ann = getattr(annotation, "__name__", str(annotation)) if annotation is not None else ""
+  if ann == "int":
+    vals += [1, 0, -1, 4]
+  elif ann == "float":
+    vals += [0.5, 0.0, 2.0]
+  elif ann == "bool":
+    vals += [True, False]
+  low = pname.lower()
+  for keys, vs in _NAME_HINTS:
+    if any(k in low for k in keys):
+      vals += vs
+  if not vals:
+    vals = [1, 0, -1, 0.5, True, "auto"]
+  out, seen = [], set()
+  for v in vals:
+    k = (type(v).__name__, repr(v))
+    if k in seen or (v == default and type(v) is type(default)):
+      continue
+    seen.add(k)
+    out.append(v)
+  return out[:cap]
+
+
+def sweep_contexts(cls_name):
+  """keyword sets under which an option unknown to the lattice is swept: every context of the
+  class, and every context extended by one (option, value) of the lattice - an option usually
+  matters only next to another one (exponent bounds next to alpha="auto_po2")"""
+  lat = LATTICE.get(cls_name, {"options": {}, "contexts": [{}]})
+  out, seen = [], set()
+
+  def add(kw):
+    k = _key(kw)
+    if k not in seen:
+      seen.add(k)
+      out.append(dict(kw))
+  for ctx in lat["contexts"]:
+    add(ctx)
+  for ctx in lat["contexts"]:
+    for o, vs in lat["options"].items():
+      if o in ctx:
+        continue
+      for v in vs:
+        kw = dict(ctx)
+        kw[o] = v
+        add(kw)
+  return out
